@@ -10,7 +10,8 @@ CLAIM = {
           'table), identity, roundtrip, transitive (+ osdd_* / lis_* table instances), convert_spec (the coded two-branch formula is the '
           'affine map through the base unit), dimension_checked, convert_ok_iff (a number exactly when the dimensions agree), '
           'unknown_unit_refused, category_mismatch_refused, lis_convert_ok_iff, lis_refusal_is_units_error, convertArray_eq_map, '
-          'convertArrayInplace_eq_map (both with the refusal), array_elementwise, array_dimension_checked, convertArrayInplace_eq_convertArray (every number type), EngVal entry points. '
+          'convertArrayInplace_eq_map (both with the refusal), array_elementwise, array_dimension_checked, convertArrayInplace_eq_convertArray (every number type), unknown_unit_to_itself_refused, EngVal entry points and history '
+          'independence of one EngVal object (engval_history, engval_history_determined, engval_imul_then_get). '
           'PARTIAL: "to within floating-point rounding" is not a theorem (IEEE rounding of Float is opaque to the Lean kernel); it is '
           'exercised on every run - every ordered pair of every dimension/category at several magnitudes, round trips, triples, array '
           'forms - against exact fractions.Fraction results with a running error bound derived on paper (stated in the evidence).'),
@@ -27,10 +28,16 @@ RULE = ('OSDD: every ordered pair of units of one dimension (102 825 pairs incl.
         'round trip; sampled triples per dimension; refusals (all four entry points, in-place array must stay untouched): one random pair for every ordered pair of dimensions + random cross pairs '
         '(quick) / every ordered cross-dimension pair (thorough). LIS: every ordered pair and every triple of every category, every '
         'ordered pair of different categories, unknown names (fixed list + random 3-5 byte names, str instead of bytes); EngVal '
-        'getInUnits/convert/newEngValInUnits/arithmetic on all same-category pairs + sampled refusals. A case is non-trivial when the '
+        'getInUnits/convert/newEngValInUnits/arithmetic on all same-category pairs + sampled refusals + equal unknown units. '
+        'Array layouts: 1200 (quick) / 12000 sampled pairs x 6-18 of 18 layouts (column views of 2-D frames, a[::2], a[::-1], transposes, '
+        '2-D/3-D, Fortran order, 0-length, 0-d): caller\'s array afterwards = element-wise scalar conversion, base outside the view untouched. '
+        'EngVal HISTORY: 250 (quick) / 2500 random histories of 12-40 operations on ONE object (getInUnits, comparisons, + - * /, in-place '
+        '+= -= *= /= with reals and EngVals, convert, newEngValInUnits, .value= / .uom= assignment); after every step every observable is '
+        'compared with a Fraction reference recomputed from (value, uom) and with a fresh object. A case is non-trivial when the '
         'two (three) units differ and the value is non-zero, or when it is a refusal; distinct by the unit codes involved.')
 ASSUMPTIONS = ['binary64 arithmetic of CPython/numpy follows IEEE 754 round-to-nearest (the rounding bound is derived from that)',
-               'float64 numpy arrays (the in-place form cannot hold the result in an integer array; float32 rounds the table constants too)',
+               'float64 numpy arrays of any shape / strides / memory order (the in-place form cannot hold the result in an integer array; float32 rounds the table constants too)',
+               'the state of an EngVal object is its two public attributes value and uom (read directly by the history oracle)',
                'the OSDD table is the static snapshot read by read_osdd_static_data(); the live HTTP table of _slb_units() is never fetched',
                'LIS/core/Units.py is imported with assert statements enabled (they check the uniqueness the model also proves for the generated table)',
                'refusal is demanded of every entry point: convert, convert_function, convert_array, convert_array_inplace (array left untouched), LIS convert, EngVal']
@@ -592,6 +599,9 @@ def run_osdd(ctx, boost=False):
             elif len({a.idx, b.idx, c.idx}) == 3:
                 ctx.nontriv(('osdd3', a.key, b.key, c.key))
 
+    # ---- array forms on strided / non-contiguous / multi-dimensional / empty arrays
+    run_layouts(ctx, U, np, ous, dims, lean, boost)
+
     # ---- refusal: different dimensions
     refuse = []
     dkeys = list(dims)
@@ -641,13 +651,15 @@ def check_refusal(U, np, v, a, b):
     Returns (failure text or None, the four outcomes, canonical array content after the in-place call)."""
     r1 = osdd_call(U, U.convert, v, a.unit, b.unit)
     r2 = osdd_call(U, U.convert_function, a.unit, b.unit)
-    src = np.array([v, 1.0], dtype=np.float64)
+    base = np.array([v, 7.0, 1.0, 9.0], dtype=np.float64)
+    src = base[::2]                                  # a strided view: [v, 1.0]
     with np.errstate(all='ignore'):
         r3 = osdd_call(U, U.convert_array, src, a.unit, b.unit)
-        work = src.copy()
+        wbase = base.copy()
+        work = wbase[::2]
         r4 = osdd_call(U, U.convert_array_inplace, work, a.unit, b.unit)
     after = ','.join(str(fbits(float(x))) for x in work)
-    untouched = after == ','.join(str(fbits(float(x))) for x in src)
+    untouched = [fbits(float(x)) for x in wbase] == [fbits(float(x)) for x in base]
     bad = None
     short = lambda r: f'{r[0]} {str(r[1])[:40]}'
     if any(r[0] != 'units' for r in (r1, r2, r3, r4)):
@@ -928,6 +940,7 @@ def run_lis(ctx, boost=False):
             for y in members:
                 ev_cases.append((x.name, y.name))
     ev_cases += [(a, b) for a, b, _ in rng.sample(refusals, min(len(refusals), ctx.n(3000, 30000)))]
+    ev_cases += [(j, j) for j in junk]       # equal unknown units: Units.convert refuses, EngVal returns the value untouched
     for u1, u2 in ev_cases:
         v = rng.choice(SPECIALS[2:] + gen_values(rng, 3))
         w = rng.choice(gen_values(rng, 2))
@@ -938,6 +951,7 @@ def run_lis(ctx, boost=False):
             ctx.fail(case, bad)
         for op, out in outs.items():
             lines.append(f'{op} {bhex(u1)} {bhex(u2)} {fbits(v)}'); meta.append(('engval_' + op, case, out, (lambda bad=bad: bad)))
+    run_history(ctx, L, EV, lus, lean, boost)
     rep = lean(lines)
     for item, m in zip(meta, rep):
         if len(item) == 4:
@@ -1076,13 +1090,20 @@ def replay(ctx, rec):
             if kind != 'ok': return False, f'convert_function raised {f}'
             ok = canon(*osdd_call(U, f, v)) == canon(*osdd_call(U, U.convert, v, a.unit, b.unit))
             return ok, 'convert_function(a,b)(v) vs convert(v,a,b)'
+        if op == 'osdd_layout':
+            a, b = g('from'), g('to')
+            pool = [fx(h) for h in case['pool']]
+            pool_res = [osdd_call(U, U.convert, v, a.unit, b.unit) for v in pool]
+            idx = np.array(case['idx'], dtype=np.int64).reshape(tuple(case['shape']))
+            bad = check_layout(U, np, a, b, pool, pool_res, None, [set() for _ in pool], case['layout'], idx)[0]
+            return bad is None, bad or f'both array forms convert {case["what"]} element-wise'
         if op == 'osdd_refuse':
             v = fx(case['v']); a, b = g('from'), g('to')
             if a.unit.dimension == b.unit.dimension:
                 return True, 'the two units now have one dimension'
             bad, r1, r2, r3, r4, _ = check_refusal(U, np, v, a, b)
             return bad is None, bad or f'convert, convert_function, convert_array, convert_array_inplace -> {r1[0]} {r1[1]!r}, array untouched'
-    if op.startswith('lis') or op == 'engval':
+    if op.startswith('lis') or op.startswith('engval'):
         L, lus = load_lis()
         from TotalDepth.LIS.core import EngVal as EV
         by = {bhex(l.name): l for l in lus}
@@ -1094,6 +1115,11 @@ def replay(ctx, rec):
             res = osdd_call(L, L.convert, 1.0, dec(case['from']), dec(case['to']))
             return res[0] == 'units', f'convert -> {res[0]} {res[1]!r}'
         un = lambda h: b'' if h == '-' else bytes.fromhex(h)
+        if op == 'engval_history':
+            pr = case['probes']
+            probes = {'units': [bytes.fromhex(h) for h in pr['units']], 'cmp': (fx(pr['cmp'][0]), bytes.fromhex(pr['cmp'][1]))}
+            r = play_history(L, EV, LisRef(lus), case['start'], case['ops'], probes)
+            return r is None, (r[1] if r else 'every observable after every step equals the reference recomputed from (value, uom)')
         if op in ('lis_refuse', 'engval'):
             u1, u2, v = un(case['from']), un(case['to']), fx(case['v'])
             if op == 'engval':
@@ -1119,3 +1145,423 @@ def replay(ctx, rec):
             bad = check_scalar(res, lis_exact(Fraction(v), x, mid), 'LIS convert') or lis_composite(L, v, x, mid, end, res[1])
             return bad is None, bad or 'within the bound'
     return True, 'nothing to replay (no concrete failing input was recorded)'
+
+
+# ------------------------------------------------------------------ array forms on strided / multi-dimensional / empty arrays
+
+def _layouts():
+    """(description, shape of the base array, memory order, view function) - the view is what is handed to the code."""
+    return [
+        ('column frames[:, 2] of a 2-D frame array', (6, 4), 'C', lambda b: b[:, 2]),
+        ('a[::2]', (9,), 'C', lambda b: b[::2]),
+        ('a[::-1]', (7,), 'C', lambda b: b[::-1]),
+        ('a[1::3]', (10,), 'C', lambda b: b[1::3]),
+        ('transpose m.T', (3, 5), 'C', lambda b: b.T),
+        ('2-D contiguous', (4, 3), 'C', lambda b: b),
+        ('3-D contiguous', (2, 3, 4), 'C', lambda b: b),
+        ('3-D slice c[:, ::2, 1]', (3, 4, 3), 'C', lambda b: b[:, ::2, 1]),
+        ('0-length 1-D', (0,), 'C', lambda b: b),
+        ('0-length slice a[3:3]', (6,), 'C', lambda b: b[3:3]),
+        ('shape (0, 4)', (0, 4), 'C', lambda b: b),
+        ('Fortran-order 2-D', (4, 3), 'F', lambda b: b),
+        ('row f[1, :] of a Fortran-order array', (4, 5), 'F', lambda b: b[1, :]),
+        ('2-D block m[1:3, ::2]', (4, 6), 'C', lambda b: b[1:3, ::2]),
+        ('0-d array', (), 'C', lambda b: b),
+        ('1-D contiguous', (5,), 'C', lambda b: b),
+        ('reversed column frames[::-1, 0]', (5, 3), 'C', lambda b: b[::-1, 0]),
+        ('transpose of a 3-D array', (2, 3, 2), 'C', lambda b: b.transpose(2, 0, 1)),
+    ]
+
+
+def _bits_of(np, x):
+    return np.ascontiguousarray(x, dtype=np.float64).reshape(-1).view(np.uint64)
+
+
+def _same_bits(np, x, y):
+    return x.shape == y.shape and np.array_equal(_bits_of(np, x), _bits_of(np, y))
+
+
+def check_layout(U, np, a, b, pool, pool_res, pool_ok, accepted, li, idx):
+    """One array layout: `idx` (ints, shape of the base array) says which pool value sits where.
+    Oracle: the copying form returns, and the in-place form leaves in the caller's array, the element-wise scalar conversion
+    of the previous content (each element within the rounding bound of the exact value); the argument of the copying form
+    and everything of the base array outside the view stay bit-identical.
+    Returns (failure text or None, request values, canonical copy result, canonical in-place result)."""
+    desc, shape, order, vf = _layouts()[li]
+    parr = np.array(pool, dtype=np.float64)
+    base = parr[idx] if idx.size else np.zeros(idx.shape, dtype=np.float64)
+    base = np.asfortranarray(base) if order == 'F' else np.ascontiguousarray(base)
+    if base.shape != idx.shape:                       # ascontiguousarray turns 0-d into 1-d
+        base = base.reshape(idx.shape)
+    base_prev = base.copy(order='K')
+    view = vf(base)
+    prev = np.array(view, dtype=np.float64, copy=True)
+    which = vf(idx).reshape(-1)                        # pool index of every element of the view, in C order of the view
+    req = ','.join(str(int(x)) for x in _bits_of(np, prev)) or '-'
+    cf = lambda arr: 'ok ' + (','.join(str(int(x)) for x in _bits_of(np, arr)) or '-')
+
+    def elements(name, got):
+        flat = _bits_of(np, got)
+        for pos, (k, gb) in enumerate(zip(which, flat)):
+            k, gb = int(k), int(gb)
+            if gb in accepted[k]:
+                continue
+            t = check_scalar(('ok', bits_f(gb)), osdd_exact(Fraction(pool[k]), a, b), f'{name} on {desc}, element {pos} (v={pool[k]!r})')
+            if t:
+                return t
+            accepted[k].add(gb)
+        return None
+
+    with np.errstate(all='ignore'):
+        rc = osdd_call(U, U.convert_array, view, a.unit, b.unit)
+    if rc[0] != 'ok':
+        return f'convert_array on {desc}: raised {rc[1]}', req, canon(*rc), None
+    out = rc[1]
+    c_copy = cf(out) if isinstance(out, np.ndarray) or isinstance(out, np.floating) else 'ok ?'
+    bad = None
+    if not hasattr(out, 'shape') or tuple(out.shape) != tuple(view.shape) or getattr(out, 'dtype', None) != np.float64:
+        bad = f'convert_array on {desc}: returned {type(out).__name__} shape {getattr(out, "shape", None)} dtype {getattr(out, "dtype", None)}, expected float64 of shape {view.shape}'
+    elif not _same_bits(np, base, base_prev):
+        bad = f'convert_array on {desc}: modified its argument'
+    else:
+        bad = elements('convert_array', np.asarray(out))
+    with np.errstate(all='ignore'):
+        ri = osdd_call(U, U.convert_array_inplace, view, a.unit, b.unit)
+    after = np.array(view, dtype=np.float64, copy=True)
+    c_inp = (f'ok {cf(after)[3:]} after {cf(after)[3:]}') if ri[0] == 'ok' else canon(*ri) + ' after ' + cf(after)[3:]
+    if bad:
+        return bad, req, c_copy, c_inp
+    if ri[0] != 'ok':
+        return f'convert_array_inplace on {desc}: raised {ri[1]}', req, c_copy, c_inp
+    if ri[1] is not None:
+        return f'convert_array_inplace on {desc}: returned {type(ri[1]).__name__}, documented None', req, c_copy, c_inp
+    bad = elements(f'convert_array_inplace (content of the caller\'s array afterwards)', after)
+    if bad:
+        if prev.size and _same_bits(np, after, prev) and not _same_bits(np, np.asarray(out), prev):
+            bad += ' - the caller\'s array was left unconverted'
+        return bad, req, c_copy, c_inp
+    chk = base.copy(order='K')
+    vf(chk)[...] = prev
+    if not _same_bits(np, chk, base_prev):
+        return f'convert_array_inplace on {desc}: elements of the base array outside the view were modified', req, c_copy, c_inp
+    return None, req, c_copy, c_inp
+
+
+def run_layouts(ctx, U, np, ous, dims, lean, boost=False):
+    rng = ctx.rng
+    L = _layouts()
+    npairs = ctx.n(1200, 12000) * (2 if boost else 1)
+    with_off = [m for m in dims.values() if any(o.has_off for o in m)]
+    multi = [m for m in dims.values() if len(m) >= 2]
+    lines, meta = [], []
+    for n in range(npairs):
+        members = rng.choice(with_off) if (n % 5 == 0 and with_off) else rng.choice(multi)
+        a, b = rng.choice(members), rng.choice(members)
+        if n % 5 == 0 and with_off:
+            offs = [o for o in members if o.has_off]
+            if rng.random() < 0.7: a = rng.choice(offs)
+        pool = gen_values(rng, 6) + [rng.choice(SPECIALS), rng.choice(SPECIALS)]
+        pool_res = [osdd_call(U, U.convert, v, a.unit, b.unit) for v in pool]
+        accepted = []
+        for v, r in zip(pool, pool_res):
+            ok = check_scalar(r, osdd_exact(Fraction(v), a, b), 'convert') is None
+            accepted.append({fbits(r[1])} if ok else set())
+        for li in (range(len(L)) if n % 4 == 0 else rng.sample(range(len(L)), 6)):
+            shape = L[li][1]
+            size = 1
+            for d in shape: size *= d
+            idx = np.array([rng.randrange(len(pool)) for _ in range(size)], dtype=np.int64).reshape(shape)
+            case = {'op': 'osdd_layout', 'from': a.key, 'to': b.key, 'pool': [v.hex() for v in pool], 'layout': li,
+                    'what': L[li][0], 'shape': list(shape), 'idx': [int(x) for x in idx.reshape(-1)]}
+            ctx.count('oracle_cases')
+            bad, req, c_copy, c_inp = check_layout(U, np, a, b, pool, pool_res, None, accepted, li, idx)
+            if bad:
+                ctx.fail(case, bad)
+            else:
+                ctx.nontriv(('layout', li, a.key, b.key))
+            lines.append(f'oarr {a.idx} {b.idx} {req}'); meta.append(('osdd_layout_copy', case, c_copy, (lambda bad=bad: bad)))
+            if c_inp is not None:
+                lines.append(f'oinp {a.idx} {b.idx} {req}'); meta.append(('osdd_layout_inplace', case, c_inp, (lambda bad=bad: bad)))
+    rep = lean(lines)
+    for (stream, case, impl, recheck), m in zip(meta, rep):
+        corr_num(ctx, stream, case, impl, m, recheck)
+    ctx.extra['array_layouts'] = [l[0] for l in L]
+
+
+# ------------------------------------------------------------------ one EngVal object over time (HISTORY streams)
+
+_CMP = {'<': lambda x, y: x < y, '<=': lambda x, y: x <= y, '>': lambda x, y: x > y, '>=': lambda x, y: x >= y,
+        '==': lambda x, y: x == y, '!=': lambda x, y: x != y}
+DIMLESS = b'    '
+
+
+class LisRef:
+    """Pure reference for LIS conversions: exact value and rounding bound from the table the module holds."""
+    def __init__(self, lus):
+        self.by = {l.name: l for l in lus}
+        self.lus = lus
+
+    def get(self, v, u, target):
+        """value v in units u asked in units target: ('ident', v) | ('units',) | ('ok', E, B)"""
+        if target == u:
+            return ('ident', v)
+        x, y = self.by.get(u), self.by.get(target)
+        if x is None or y is None or x.cat != y.cat:
+            return ('units',)
+        ex = lis_exact(Fraction(v), x, y)
+        if ex is None:
+            return ('units',)
+        return ('ok', ex[0], err_bound(ex[1], ex[0], ex[2], ex[3]))
+
+
+def _within(val, E, B):
+    return is_num(val) and abs(Fraction(val) - E) <= B
+
+
+def gen_history(rng, lus, nsteps):
+    """A random history for one EngVal object. Ops are JSON-able lists; the units the object will have are tracked so that
+    most operands are convertible (the rest exercise refusals)."""
+    cats = {}
+    for l in lus: cats.setdefault(l.cat, []).append(l)
+    by = {l.name: l for l in lus}
+    big = [m for m in cats.values() if len(m) >= 3]
+    start_u = rng.choice(rng.choice(big)).name
+    start_v = gen_values(rng, 1)[0]
+    cur = start_u
+    hx = lambda x: x.hex()
+    def unit_near(p_other=0.12):
+        r = rng.random()
+        if r < p_other: return rng.choice(lus).name
+        if r < p_other + 0.05: return rng.choice(JUNK_UNITS[:6])
+        if cur in by: return rng.choice(cats[by[cur].cat]).name
+        return rng.choice(lus).name
+    def real(): return rng.uniform(0.5, 2.0) * rng.choice([1, 1, 1, -1])
+    ops = []
+    for _ in range(nsteps):
+        r = rng.random()
+        if r < 0.10: op = ['im', hx(real())]
+        elif r < 0.18: op = ['id', hx(real())]
+        elif r < 0.24: op = ['ia', hx(gen_values(rng, 1)[0])]
+        elif r < 0.30: op = ['is', hx(gen_values(rng, 1)[0])]
+        elif r < 0.38: op = ['iaE', hx(unit_near()), hx(gen_values(rng, 1)[0])]
+        elif r < 0.44: op = ['isE', hx(unit_near()), hx(gen_values(rng, 1)[0])]
+        elif r < 0.49: op = ['imE', hx(DIMLESS), hx(real())]
+        elif r < 0.53: op = ['idE', hx(DIMLESS), hx(real())]
+        elif r < 0.63:
+            t = unit_near(); op = ['cv', hx(t)]
+            x, y = by.get(cur), by.get(t)
+            if t == cur or (x is not None and y is not None and x.cat == y.cat): cur = t
+        elif r < 0.69: op = ['sv', hx(gen_values(rng, 1)[0])]
+        elif r < 0.72:
+            t = rng.choice(rng.choice(big)).name; op = ['su', hx(t)]; cur = t
+        elif r < 0.82: op = ['get', hx(unit_near())]
+        elif r < 0.86: op = ['new', hx(unit_near())]
+        elif r < 0.93: op = ['cmp', rng.choice(list(_CMP)), hx(unit_near(0.05)), hx(gen_values(rng, 1)[0])]
+        else: op = ['bin', rng.choice(['+', '-', '*r', '/r']), hx(unit_near(0.05)), hx(gen_values(rng, 1)[0] if rng.random() < 0.7 else real())]
+        ops.append(op)
+    return {'u': hx(start_u), 'v': start_v.hex()}, ops
+
+
+def play_history(L, EV, ref: LisRef, start, ops, probes, record=None):
+    """Apply ops to ONE EngVal object. After every step every observable (value, uom, getInUnits for the probe units, == and <
+    against a probe) is compared with a reference recomputed from the (value, uom) pair alone: exact Fraction arithmetic with
+    the rounding bound, and a fresh EngVal(value, uom). Returns (index of the failing step, text) or None."""
+    import operator
+    unb = bytes.fromhex
+    fx = float.fromhex
+    e = EV.EngVal(fx(start['v']), unb(start['u']))
+    call = lambda fn, *a: osdd_call(L, fn, *a)
+
+    def get_ok(res, r, what):
+        if r[0] == 'units':
+            return None if res[0] == 'units' else f'{what}: {res[0]} {res[1]!r}; expected a units error'
+        if res[0] != 'ok':
+            return f'{what}: raised {res[1]}'
+        if r[0] == 'ident':
+            return None if isinstance(res[1], float) and fbits(res[1]) == fbits(r[1]) else f'{what}: {res[1]!r}, expected the value {r[1]!r} untouched'
+        if not _within(res[1], r[1], r[2]):
+            return f'{what}: {res[1]!r}, exact {float(r[1])!r} (bound {float(r[2]):.2e}) recomputed from (value, uom)'
+        return None
+
+    def observables(step):
+        v, u = e.value, e.uom
+        if not is_num(v) or not isinstance(u, bytes):
+            return f'state is ({v!r}, {u!r})'
+        for t in probes['units'] + [u]:
+            res = call(e.getInUnits, t)
+            bad = get_ok(res, ref.get(v, u, t), f'getInUnits({t!r}) on the object in state ({v!r}, {u!r})')
+            if bad: return bad
+            fresh = call(EV.EngVal(v, u).getInUnits, t)
+            if canon(*res) != canon(*fresh):
+                return f'getInUnits({t!r}) = {res[1]!r} on the object, {fresh[1]!r} on a fresh EngVal({v!r}, {u!r})'
+            if (e.value, e.uom) != (v, u) and not (e.value != e.value):
+                return f'getInUnits({t!r}) changed the state to ({e.value!r}, {e.uom!r})'
+        pw, pu = probes['cmp']
+        for name in ('==', '<'):
+            res = call(_CMP[name], e, EV.EngVal(pw, pu))
+            fresh = call(_CMP[name], EV.EngVal(v, u), EV.EngVal(pw, pu))
+            if (res[0], res[1] if res[0] == 'ok' else None) != (fresh[0], fresh[1] if fresh[0] == 'ok' else None):
+                return f'object {name} EngVal({pw!r},{pu!r}) -> {res}, fresh EngVal({v!r},{u!r}) -> {fresh}'
+            bad = cmp_ok(res, name, v, u, pw, pu)
+            if bad: return bad
+        return None
+
+    def cmp_ok(res, name, v, u, w, u2):
+        r = ref.get(w, u2, u)                 # the right operand is brought into the units of the left one
+        what = f'EngVal({v!r},{u!r}) {name} EngVal({w!r},{u2!r})'
+        if r[0] == 'units':
+            return None if res[0] == 'units' else f'{what}: {res[0]} {res[1]!r}; expected a units error'
+        if res[0] != 'ok':
+            return f'{what}: raised {res[1]}'
+        Ec, Bc = (Fraction(r[1]), 0) if r[0] == 'ident' else (r[1], r[2])
+        if abs(Fraction(v) - Ec) <= 2 * Bc and Bc != 0:
+            return None                        # too close to call within rounding
+        want = _CMP[name](Fraction(v), Ec)
+        return None if res[1] is want else f'{what}: {res[1]!r}, expected {want} (exact right operand {float(Ec)!r})'
+
+    bad = observables(-1)
+    if bad: return -1, 'initial object: ' + bad
+    for i, op in enumerate(ops):
+        v, u = e.value, e.uom
+        kind = op[0]
+        exp_u, E, B, refused, same_obj = u, None, None, False, None
+        if kind in ('im', 'id', 'ia', 'is'):
+            r = fx(op[1])
+            fn = {'im': operator.imul, 'id': operator.itruediv, 'ia': operator.iadd, 'is': operator.isub}[kind]
+            E = {'im': Fraction(v) * Fraction(r), 'id': Fraction(v) / Fraction(r), 'ia': Fraction(v) + Fraction(r), 'is': Fraction(v) - Fraction(r)}[kind]
+            B = U53 * abs(E) + 4 * ETA
+            res = call(fn, e, r); same_obj = True
+        elif kind in ('iaE', 'isE'):
+            u2, w = unb(op[1]), fx(op[2])
+            rr = ref.get(w, u2, u)
+            res = call(operator.iadd if kind == 'iaE' else operator.isub, e, EV.EngVal(w, u2)); same_obj = True
+            if rr[0] == 'units':
+                refused = True
+            else:
+                Ec, Bc = (Fraction(rr[1]), 0) if rr[0] == 'ident' else (rr[1], rr[2])
+                E = Fraction(v) + Ec if kind == 'iaE' else Fraction(v) - Ec
+                B = Bc * (1 + U53) + U53 * abs(E) + 4 * ETA
+        elif kind in ('imE', 'idE'):
+            u2, w = unb(op[1]), fx(op[2])
+            res = call(operator.imul if kind == 'imE' else operator.itruediv, e, EV.EngVal(w, u2)); same_obj = True
+            E = Fraction(v) * Fraction(w) if kind == 'imE' else Fraction(v) / Fraction(w)
+            B = U53 * abs(E) + 4 * ETA
+        elif kind == 'cv':
+            t = unb(op[1])
+            rr = ref.get(v, u, t)
+            res = call(e.convert, t)
+            if rr[0] == 'units': refused = True
+            elif rr[0] == 'ident': E, B, exp_u = Fraction(v), 0, t
+            else: E, B, exp_u = rr[1], rr[2], t
+        elif kind == 'sv':
+            e.value = fx(op[1]); res = ('ok', None); E, B = Fraction(fx(op[1])), 0
+        elif kind == 'su':
+            e.uom = unb(op[1]); res = ('ok', None); E, B, exp_u = Fraction(v), 0, unb(op[1])
+        else:
+            # ---- reading operations: checked against the state before, which they must leave alone
+            E, B = Fraction(v), 0
+            if kind == 'get':
+                t = unb(op[1]); res = call(e.getInUnits, t)
+                bad = get_ok(res, ref.get(v, u, t), f'step {i}: getInUnits({t!r}) in state ({v!r},{u!r})')
+            elif kind == 'new':
+                t = unb(op[1]); res = call(e.newEngValInUnits, t)
+                rr = ref.get(v, u, t)
+                val = ('ok', res[1].value) if res[0] == 'ok' else res
+                bad = get_ok(val, rr, f'step {i}: newEngValInUnits({t!r}) in state ({v!r},{u!r})')
+                if not bad and res[0] == 'ok' and (res[1].uom != t or res[1] is e):
+                    bad = f'step {i}: newEngValInUnits({t!r}) returned units {res[1].uom!r} / the same object'
+            elif kind == 'cmp':
+                name, u2, w = op[1], unb(op[2]), fx(op[3])
+                res = call(_CMP[name], e, EV.EngVal(w, u2))
+                bad = cmp_ok(res, name, v, u, w, u2)
+                if bad: bad = f'step {i}: ' + bad
+            else:
+                name, u2, w = op[1], unb(op[2]), fx(op[3])
+                if name in ('*r', '/r'):
+                    res = call(operator.mul if name == '*r' else operator.truediv, e, w)
+                    Er = Fraction(v) * Fraction(w) if name == '*r' else Fraction(v) / Fraction(w)
+                    rr = ('ok', Er, U53 * abs(Er) + 4 * ETA)
+                else:
+                    res = call(operator.add if name == '+' else operator.sub, e, EV.EngVal(w, u2))
+                    c = ref.get(w, u2, u)
+                    if c[0] == 'units': rr = c
+                    else:
+                        Ec, Bc = (Fraction(c[1]), 0) if c[0] == 'ident' else (c[1], c[2])
+                        Er = Fraction(v) + Ec if name == '+' else Fraction(v) - Ec
+                        rr = ('ok', Er, Bc * (1 + U53) + U53 * abs(Er) + 4 * ETA)
+                val = ('ok', res[1].value) if res[0] == 'ok' and isinstance(res[1], EV.EngVal) else res
+                bad = get_ok(val, rr, f'step {i}: EngVal({v!r},{u!r}) {name} ({w!r},{u2!r})')
+                if not bad and res[0] == 'ok' and (res[1] is e or res[1].uom != u):
+                    bad = f'step {i}: binary {name} returned the same object / units {res[1].uom!r}'
+            if bad: return i, bad
+            res = ('ok', None)
+        # ---- state after the step
+        what = f'step {i} {op} from state ({v!r},{u!r})'
+        if refused:
+            if res[0] != 'units':
+                return i, f'{what}: {res[0]} {res[1]!r}; expected a units error'
+            if not (isinstance(e.value, float) and fbits(e.value) == fbits(v) and e.uom == u):
+                return i, f'{what}: refused, but the state changed to ({e.value!r},{e.uom!r})'
+        else:
+            if res[0] != 'ok':
+                return i, f'{what}: raised {res[1]}'
+            if same_obj and res[1] is not e:
+                return i, f'{what}: the in-place operator returned another object'
+            if e.uom != exp_u:
+                return i, f'{what}: units are {e.uom!r}, expected {exp_u!r}'
+            if not (is_num(e.value) and abs(Fraction(e.value) - E) <= B):
+                return i, f'{what}: value is {e.value!r}, exact {float(E)!r} (bound {float(B):.2e})'
+        if record is not None and kind in ('im', 'id', 'ia', 'is', 'iaE', 'isE', 'imE', 'idE', 'cv', 'sv', 'su'):
+            record.append((i, v, u, op, e.value, e.uom))
+        bad = observables(i)
+        if bad:
+            return i, f'after step {i} {op}: ' + bad
+    return None
+
+
+def _op_token(op):
+    b = lambda h: str(fbits(float.fromhex(h)))
+    k = op[0]
+    if k in ('im', 'id', 'ia', 'is', 'sv'): return f'{k}:{b(op[1])}'
+    if k in ('iaE', 'isE', 'imE', 'idE'): return f'{k}:{op[1] or "-"}:{b(op[2])}'
+    if k in ('cv', 'su'): return f'{k}:{op[1] or "-"}'
+    return 'ob'
+
+
+def run_history(ctx, L, EV, lus, lean, boost=False):
+    rng = ctx.rng
+    ref = LisRef(lus)
+    nh = ctx.n(250, 2500) * (2 if boost else 1)
+    lines, meta = [], []
+    for h in range(nh):
+        start, ops = gen_history(rng, lus, rng.choice([12, 25, 40]))
+        su = bytes.fromhex(start['u'])
+        cat = [l.name for l in lus if l.cat == ref.by[su].cat]
+        probes = {'units': [rng.choice(cat), rng.choice(cat), rng.choice(lus).name],
+                  'cmp': (gen_values(rng, 1)[0], rng.choice(cat))}
+        record = []
+        ctx.count('oracle_cases', len(ops) + 1)
+        r = play_history(L, EV, ref, start, ops, probes, record)
+        if r is not None:
+            i, text = r
+            ctx.fail({'op': 'engval_history', 'start': start, 'ops': ops[:i + 1],
+                      'probes': {'units': [p.hex() for p in probes['units']], 'cmp': [probes['cmp'][0].hex(), probes['cmp'][1].hex()]}}, text)
+        else:
+            ctx.nontriv(('history', h, start['u'], len(ops)))
+        for (i, v, u, op, v2, u2) in record:
+            if not (is_num(v) and is_num(v2)): continue
+            lines.append(f'ehist {bhex(u)} {fbits(v)} {_op_token(op)}')
+            meta.append(({'op': 'engval_step', 'state': [v.hex(), bhex(u)], 'step': op}, f'{fbits(v2)}:{bhex(u2)}'))
+        if h == 0:
+            ctx.sample({'op': 'engval_history', 'start': start, 'first_ops': ops[:6]})
+    rep = lean(lines)
+    soft = 0
+    for (case, impl), m in zip(meta, rep):
+        if m is None: continue
+        if impl != m and impl.split(':')[1:] == m.split(':')[1:]:
+            soft += 1                      # same units, value differs in bits: the oracle above already bounded it
+            ctx.count('bitwise_differences_within_rounding_bound')
+            ctx.corr('engval_history_step', case, 'within rounding', 'within rounding')
+        else:
+            ctx.corr('engval_history_step', case, impl, m)
+    ctx.extra['engval_histories'] = nh
